@@ -352,22 +352,25 @@ def cry_obligations():
                     note='returns verify() == 0; no file is written (frame); process-global state untouched' + (' (no output file given)' if dd else '')))
     o.append(Ob('cry_prepare_IV_file', PV + ['C01'], enforce='runcrypt__prepare_IV_2', replace=['FileHeader__getIV_2'], **CRY))
     o.append(Ob('cry_prepare_IV_seed', ['C02', 'C18', 'C13'], enforce='runcrypt__prepare_IV_1', replace=['FileHeader__getIV_1', 'FileHeader__getFileHeader'], **CRY))
+    o.append(Ob('bg_get_instance', ['C15', 'C01'], enforce='buffergroup__get_instance', **CRY, note='double-checked singleton creation; a fresh instance starts at turn 0, not over'))
     for T in T_VALUES:
         dT = ['WV_USE_SPEC_AES', 'WV_T_FIX=%d' % T] + BUFSZ
         tn = ' (T = %d worker threads)' % T
         tier = 'quick' if T in T_QUICK else 'thorough'
-        o.append(Ob('cry_prepare_AES_T%d' % T, ['C02', 'C18', 'C01', 'C11', 'C15'], enforce='runcrypt__prepare_AES', unwind=18, timeout=900, contracts=['cry.h'], defines=dT, tier=tier,
-                    replace=['wv_fseek', 'buffergroup__get_instance', 'buffergroup__set_buffergroup', 'AesFactory__createCryMaster'],
-                    note='T stream objects of the class for (direction, mode), each from the user key; envelope for the recorded finding: IV i or IV 0' + tn))
-        o.append(Ob('cry_prepare_AES_C18_T%d' % T, ['C18'], enforce='runcrypt__prepare_AES', unwind=18, timeout=900, contracts=['cry.h'], defines=dT + ['WV_C18_PROPERTY'], tier=tier,
-                    replace=['wv_fseek', 'buffergroup__get_instance', 'buffergroup__set_buffergroup', 'AesFactory__createCryMaster'],
-                    note='the property itself: stream i is started from IV i' + tn))
-        o.append(Ob('cry_execute_encrypt_T%d' % T, ['C02', 'C08', 'C12', 'C13', 'C15'], enforce='runcrypt__execute_encrypt', timeout=900, contracts=['cry.h'],
+        # prepare_AES: enforcing a contract on it, or harnessing it alone, timed out in every formulation tried (> 600 s even for
+        # T = 1) while its real code inlined in its two callers' proofs below takes ~2 minutes.  Its facts (stream class, user key,
+        # stream IVs -- C18 and the envelope of the recorded C18 finding) are therefore in-place assertions in prepare_AES,
+        # discharged inside cry_execute_encrypt_T* / cry_execute_decrypt_T*.
+        o.append(Ob('bg_set_buffergroup_T%d' % T, ['C15', 'C01', 'C14'], enforce='buffergroup__set_buffergroup', contracts=['cry.h'], defines=dT, tier=tier, unwind=T + 2,
+                    note='T buffers, all EMPTY (owned by the I/O thread), nothing loaded; live_num == T' + tn))
+        o.append(Ob('bg_del_instance_T%d' % T, ['C15'], enforce='buffergroup__del_instance', contracts=['cry.h'], defines=dT, tier=tier,
+                    note='the singleton and its arrays are released and the pointer is cleared' + tn))
+        o.append(Ob('cry_execute_encrypt_T%d' % T, ['C02', 'C08', 'C12', 'C13', 'C15', 'C18'], enforce='runcrypt__execute_encrypt', timeout=900, contracts=['cry.h'],
                     defines=dT + ['WV_FACTORY_LIGHT'], tier=tier, unwind=T + 2,
                     replace=['runcrypt__prepare_IV_1', 'AesFactory__createCryMaster', 'multicry_master__run_multicry', 'hmac__writeFileHmac',
                              'runcrypt__release', 'runcrypt__over'],
                     note='write order header -> body -> tag (last write); output length; tag area written zero then once; input only read; global state fresh again' + tn))
-        o.append(Ob('cry_execute_decrypt_T%d' % T, PV + ['C15'], enforce='runcrypt__execute_decrypt', timeout=900, contracts=['cry.h'], defines=dT + ['WV_FACTORY_LIGHT'], tier=tier,
+        o.append(Ob('cry_execute_decrypt_T%d' % T, PV + ['C15', 'C18', 'C01'], enforce='runcrypt__execute_decrypt', timeout=900, contracts=['cry.h'], defines=dT + ['WV_FACTORY_LIGHT'], tier=tier,
                     # prepare_AES and the instance set-up are the real code here: a pointer that is only *assumed* equal (by a replaced
                     # contract) cannot be dereferenced efficiently by CBMC, and the pipeline summary reaches the files through the instance
                     replace=['runcrypt__verify', 'runcrypt__prepare_IV_2', 'wv_fseek', 'AesFactory__createCryMaster', 'multicry_master__run_multicry',
